@@ -191,7 +191,8 @@ theorem fields_nanBits (f : Fmt) (hew : 1 ≤ f.ew) (hp : 2 ≤ f.p) :
   rw [h1, h2, h3, Nat.mod_eq_of_lt hE]
   simp
 
-/-- **mpf2expansion never terminates on NaN** (`length=None`), for every format, precision and fuel. -/
+/-- Regression lemma for the defect repaired in /repo by 81efdaa: the `while True` loop of `mpf2expansion`,
+which the code used to enter with a NaN, never exits on NaN (`length=None`) — every format, precision, fuel. -/
 theorem expansionLoop_nan (f : Fmt) (prec : Nat) (hew : 2 ≤ f.ew) (hp : 2 ≤ f.p) :
     ∀ (fuel : Nat) (acc : List Nat), expansionLoopG (mpf2floatC f) f prec none fuel fnan acc = .error .nonTermination := by
   have hF := fields_nanBits f (by omega) hp
